@@ -6,6 +6,7 @@ Imports the model and `Std` (hash maps for the data tables) only, so it links as
 -/
 import RitiModel.Model.Context
 import RitiModel.Model.Okkhor
+import RitiModel.Model.Bijoy
 import Std.Data.HashMap
 open Riti Std
 
@@ -253,8 +254,15 @@ def handle (st : St) (line : String) : IO St := do
   | ["dict", w, "!"] =>
     return { st with t := { st.t with dict := st.t.dict.insert (key (unescape w)) none } }
   | ["bijoy", s, "=", r] =>
+    -- correspondence for the Lean model of the encoder (Model/Bijoy): it must reproduce what the crate returned
+    let st ← (match Riti.bijoy (unescape s) with
+      | .ok t => if t == unescape r then pure (bump st "bijoy-line-agrees") else report st s!"MISMATCH case={st.caseName} line={st.lineNo} bijoy model=[{escape t}] crate=[{r}] for [{s}]"
+      | .error _ => report st s!"MISMATCH case={st.caseName} line={st.lineNo} bijoy model=[PANIC] crate=[{r}] for [{s}]")
     return { st with t := { st.t with bijoy := st.t.bijoy.insert (key (unescape s)) (some (unescape r)) } }
   | ["bijoy", s, "!"] =>
+    let st ← (match Riti.bijoy (unescape s) with
+      | .error _ => pure (bump st "bijoy-line-agrees")
+      | .ok t => report st s!"MISMATCH case={st.caseName} line={st.lineNo} bijoy model=[{escape t}] crate=[PANIC] for [{s}]")
     return { st with t := { st.t with bijoy := st.t.bijoy.insert (key (unescape s)) none } }
   | ["case", name] =>
     return { st with caseName := name, ctxs := {}, fs := {}, cases := st.cases + 1 }
